@@ -8,6 +8,8 @@ oracle      independent abstract history kept by the runner: success => exactly 
             entries unchanged (JSON objects compared), tree = the state the history implies (snapshots taken after every
             successful operation); failure => tree and history unchanged; undo only while applied, redo only while undone.
             A sequence is evaluated up to its first oracle failure (after a defect the workspace is no longer specified).
+bursts      rename, then every sequence of undo / redo by `latest`, by #0 and by #2 issued within ONE second, 4 commands deep (quick: after A';
+            thorough: also by #2 for redo, after A, A', B, the first one in the same or the next second)
 sequences   corpus first; exhaustive over {rename A, A', B, undo latest|#0|#1, redo latest|#0} x {same second, next second}
             up to a length (quick: all of length <= 2 and a fixed slice of length 3; thorough: all of length <= 4), and
             random sequences of length <= 10 on three workspaces.
@@ -381,7 +383,7 @@ def run_sequence(d, ws, seq):
     return res
 
 
-def explore(d, ws, prefix, depth, out, keep=None):
+def explore(d, ws, prefix, depth, out, keep=None, alphabet=None, dts=(0, 1)):
     """all sequences extending `prefix` up to `depth` commands, sharing the executed prefix (state saved/restored in place)"""
     setup_ws(d, ws)
     orc = Oracle(user_tree(d))
@@ -398,18 +400,18 @@ def explore(d, ws, prefix, depth, out, keep=None):
             return
     r = SeqResult(ws, list(prefix)); r.pieces = list(pieces)
     out.append(r)
-    _dfs(d, ws, list(prefix), pieces, orc, now, depth, out, keep)
+    _dfs(d, ws, list(prefix), pieces, orc, now, depth, out, keep, alphabet or ALPHABET, dts)
 
 
-def _dfs(d, ws, seq, pieces, orc, now, depth, out, keep):
+def _dfs(d, ws, seq, pieces, orc, now, depth, out, keep, alphabet, dts):
     if len(seq) >= depth:
         return
     import copy
     bak = tempfile.mkdtemp(prefix="c10bak.")
     try:
         save_state(d, os.path.join(bak, "s"))
-        for cmd in ALPHABET:
-            for dt in (0, 1):
+        for cmd in alphabet:
+            for dt in dts:
                 nseq = seq + [(cmd, dt)]
                 if keep is not None and len(nseq) == depth and not keep(nseq):
                     continue
@@ -424,7 +426,7 @@ def _dfs(d, ws, seq, pieces, orc, now, depth, out, keep):
                 if shape:
                     r.verdict = (len(nseq) - 1, shape, detail, st.stderr[-300:])
                     continue
-                _dfs(d, ws, nseq, p2, o2, now + dt, depth, out, keep)
+                _dfs(d, ws, nseq, p2, o2, now + dt, depth, out, keep, alphabet, dts)
     finally:
         shutil.rmtree(bak, ignore_errors=True)
 
@@ -562,6 +564,9 @@ def run(ctx):
         from translate import history_flags
         history_flags.run()
         ctx.cov["history_flags"] = history_flags.flags(common.REPO)
+        for u in ctx.cov["history_flags"].get("unrecognised", []):
+            ctx.notes.append("translate/history_flags: " + u + " — not a shape the model knows; the CLI-vs-model comparison and the "
+                             "oracle decide")
     except Exception as ex:                      # a translator that cannot parse its source is a broken tie
         ctx.broke("translator", "translate/history_flags.py", str(ex))
     ctx.prove("RModel.Props.C10")
@@ -627,6 +632,27 @@ def run(ctx):
     if judge(ctx, uniq):
         return
     ctx.sample({"workspace": "W1", "sequence": seq_str(uniq[-1].seq), "observed": uniq[-1].pieces[-1][:120]})
+
+    # ---- same-second bursts: rename, then undo / redo / undo ... by `latest` and by id, all within one second --------------
+    # ("back-to-back within the same second"): ids derived from the clock (revert-<id>-<sec>, redo-<id>-<sec>) are the ones
+    # that can collide here; #2 is the first redo entry when the burst starts undo, redo
+    burst_alpha = ["ul", "rl", "u0", "r0", "u2"] + (["r2"] if ctx.thorough else [])
+    burst_depth = 4                                  # commands after the rename
+    heads = [(x, dt) for x in (("A", "A'", "B") if ctx.thorough else ("A'",)) for dt in ((0, 1) if ctx.thorough else (0,))]
+
+    def btask(x, c1, dt):
+        def go(d):
+            out = []
+            explore(d, "W1", [(x, 0), (c1, dt)], 1 + burst_depth, out, None, burst_alpha, (0,))
+            return out
+        return go
+    bchunks = run_parallel([btask(x, c1, dt) for x, dt in heads for c1 in burst_alpha])
+    bres = [r for ch in bchunks for r in ch]
+    bres.sort(key=lambda r: (len(r.seq), seq_str(r.seq)))
+    ctx.count("burst:sequences", len(bres))
+    if judge(ctx, bres):
+        return
+    ctx.sample({"workspace": "W1", "sequence": seq_str(bres[-1].seq), "observed": bres[-1].pieces[-1][:120]})
 
     # ---- random, longer ------------------------------------------------------------------------------
     n_rand = 400 if ctx.thorough else 40
